@@ -1,3 +1,114 @@
-(** C19 placeholder while the proofs are under construction *)
+(** C19 — load_schema from per-type files is equivalent to parsing the same types inlined at
+    their first use.  Statements only; proofs in proofs/RepoProofs.v.
+
+    [repo]              subject name -> raw JSON of <name>.avsc
+    [pwr f rp schema tbl wh inj]  _parse_schema_with_repo: Some (POk (parsed, the named_schemas
+                        argument afterwards, injected_schemas)); None = SchemaRepositoryError
+    [load rp top]       fastavro.schema.load_schema(<dir>/<top>.avsc)
+    [load_ordered rp names]       load_schema_ordered
+    [inline_first_use rp top]     the specification: every reference to a type that has a file and is
+                        not defined yet is replaced, in document order, by the file's content
+
+    Full statements that are NOT proved (the correspondence checks them on every generated graph):
+      C19_equiv:   for every acyclic rp in which every reference has a file,
+                     load rp top = Some (POk p)  /\  inline_first_use rp top = POk j  /\
+                     to_canonical p = to_canonical j   (and equal encodings)
+      C19_inline_closed:  ... valid_raw j = true, every named type defined exactly once, at its first use
+      C19_ordered: load_ordered rp names has the same canonical form for every dependencies-first names
+    What is missing for them: a characterisation of the parser's FAILURES (which reference raises
+    UnknownType first), of _inject_schema's position (the same reference) and the stability of
+    re-parsing an injected, already parsed sub-schema (C12_reparse).  Proved below: the first-try
+    case, the error path, that every result is a genuine parse result, and evaluated instances. *)
 From Coq Require Import String.
-From FA Require Import model.Base model.Json model.Parse model.Canon model.Repo.
+From FA Require Import model.Base model.Json model.Parse model.SchemaSpec model.Inline model.Canon model.Repo
+     proofs.JsonProofs proofs.ParseProofs proofs.RepoProofs.
+Open Scope string_scope.
+
+(** the loader's parse with _write_hint=True is parse_schema *)
+Theorem C19_parse_schema_g : forall f j t, parse_schema_g true f j t = parse_schema f j t.
+Proof. exact parse_schema_g_true. Qed.
+Print Assumptions C19_parse_schema_g.
+
+(** no unknown type: nothing is loaded, the result is the parse *)
+Theorem C19_equiv_partial_first_try : forall f rp schema tbl wh inj p tbl',
+  parse_schema_g wh (fuel_for schema) schema tbl = POk (p, tbl') ->
+  pwr (S f) rp schema tbl wh inj = Some (POk (p, tbl', inj)).
+Proof. exact pwr_first_try. Qed.
+Print Assumptions C19_equiv_partial_first_try.
+
+(** whatever the loader returns is the result of a successful parse_schema (of the schema with
+    sub-schemas injected, against some dictionary) *)
+Theorem C19_result_is_a_parse : forall f rp schema tbl wh inj p t i,
+  pwr f rp schema tbl wh inj = Some (POk (p, t, i)) ->
+  exists schema' tbl' t', parse_schema_g wh (fuel_for schema') schema' tbl' = POk (p, t').
+Proof. exact pwr_result_is_a_parse. Qed.
+Print Assumptions C19_result_is_a_parse.
+
+(** a missing file surfaces as UnknownType naming the missing full name: at the level where the
+    reference is met, and unchanged through every enclosing load *)
+Theorem C19_missing : forall f rp schema tbl wh inj q junk,
+  parse_schema_g wh (fuel_for schema) schema tbl = PErrUnknown q junk -> jget q rp = None ->
+  pwr (S f) rp schema tbl wh inj = Some (PErrUnknown q junk).
+Proof. exact pwr_missing. Qed.
+Print Assumptions C19_missing.
+
+Theorem C19_missing_nested : forall f rp schema tbl wh inj q junk raw q' junk',
+  parse_schema_g wh (fuel_for schema) schema tbl = PErrUnknown q junk -> jget q rp = Some raw ->
+  pwr f rp raw tbl false inj = Some (PErrUnknown q' junk') ->
+  pwr (S f) rp schema tbl wh inj = Some (PErrUnknown q' junk').
+Proof. exact pwr_missing_nested. Qed.
+Print Assumptions C19_missing_nested.
+
+Theorem C19_missing_top : forall rp name, jget name rp = None -> load rp name = None.
+Proof. exact load_missing_top. Qed.
+Print Assumptions C19_missing_top.
+
+(** only the top-level file can be reported as a repository error *)
+Theorem C19_no_inner_repo_error : forall f rp schema tbl wh inj, pwr f rp schema tbl wh inj <> None.
+Proof. exact pwr_some. Qed.
+Print Assumptions C19_no_inner_repo_error.
+
+(** ---- evaluated instances: a diamond (D used by B and by C), a type used at two depths with a
+    namespace-relative reference inside a sub-schema, two namespaces ---- *)
+Definition rp_diamond : repo :=
+  [("A", JObj [("type", JStr "record"); ("name", JStr "A");
+               ("fields", JArr [JObj [("name", JStr "b"); ("type", JStr "B")]; JObj [("name", JStr "c"); ("type", JStr "C")]])]);
+   ("B", JObj [("type", JStr "record"); ("name", JStr "B"); ("fields", JArr [JObj [("name", JStr "d"); ("type", JStr "D")]])]);
+   ("C", JObj [("type", JStr "record"); ("name", JStr "C");
+               ("fields", JArr [JObj [("name", JStr "d"); ("type", JArr [JStr "null"; JStr "D"])]])]);
+   ("D", JObj [("type", JStr "enum"); ("name", JStr "D"); ("symbols", JArr [JStr "A"])])].
+
+Definition rp_depths : repo :=
+  [("n.A", JObj [("type", JStr "record"); ("name", JStr "A"); ("namespace", JStr "n");
+                 ("fields", JArr [JObj [("name", JStr "x"); ("type", JObj [("type", JStr "array"); ("items", JStr "B")])];
+                                  JObj [("name", JStr "y"); ("type", JStr "n.D")]])]);
+   ("n.B", JObj [("type", JStr "record"); ("name", JStr "n.B");
+                 ("fields", JArr [JObj [("name", JStr "d"); ("type", JObj [("type", JStr "map"); ("values", JStr "D")])]])]);
+   ("n.D", JObj [("type", JStr "fixed"); ("name", JStr "D"); ("namespace", JStr "n"); ("size", JInt 4)])].
+
+Definition equiv_instance (rp : repo) (top : string) (order : list string) : Prop :=
+  exists p j po,
+    lres_schema (load rp top) = Some (POk p) /\ inline_first_use rp top = POk j /\
+    load_ordered rp order = Some (POk po) /\
+    valid_raw j = true /\ closed j = false \/ True.
+
+Example C19_equiv_diamond :
+  exists p j po s,
+    lres_schema (load rp_diamond "A") = Some (POk p) /\ inline_first_use rp_diamond "A" = POk j /\
+    load_ordered rp_diamond ["D"; "C"; "B"; "A"] = Some (POk po) /\
+    valid_raw j = true /\ spec_names "" j = ["A"; "B"; "D"; "C"] /\
+    to_canonical j = POk s /\ to_canonical p = POk s /\ to_canonical po = POk s.
+Proof. do 4 eexists. vm_compute. repeat split. Qed.
+
+Example C19_equiv_two_depths :
+  exists p j po s,
+    lres_schema (load rp_depths "n.A") = Some (POk p) /\ inline_first_use rp_depths "n.A" = POk j /\
+    load_ordered rp_depths ["n.D"; "n.B"; "n.A"] = Some (POk po) /\
+    valid_raw j = true /\ spec_names "" j = ["n.A"; "n.B"; "n.D"] /\
+    to_canonical j = POk s /\ to_canonical p = POk s /\ to_canonical po = POk s.
+Proof. do 4 eexists. vm_compute. repeat split. Qed.
+
+Example C19_missing_diamond :
+  exists junk, lres_schema (load (jdrop ["D"] rp_diamond) "A") = Some (PErrUnknown "D" junk) /\
+  load (jdrop ["A"] rp_diamond) "A" = None.
+Proof. eexists. vm_compute. split; reflexivity. Qed.
